@@ -223,7 +223,11 @@ func runC37(c *core.Ctx) {
 					return
 				}
 				if an.MentionsField(call.Common().Args[0], "Store", "dbAppliedIdx") {
-					writers[core.FuncName(an.TopFunc(fn))] = true
+					for _, n := range accountable(c, fn, func(n string) bool {
+						return n == "(*store.Store).Open" || n == "(*store.Store).fsmApply" || n == "(*store.Store).fsmRestore"
+					}) {
+						writers[n] = true
+					}
 				}
 			})
 		}
